@@ -246,7 +246,8 @@ fn parse_template(t: &str) -> Vec<Result<String, Dir>> {
                     }
                     let a = arg[..arg.len() - if before { 6 } else { 5 }].trim();
                     let (a, occ) = match a.rfind("\" #") {
-                        Some(i) => (&a[..=i], a[i + 3..].trim().parse::<i64>().unwrap_or(1)),
+                        // `#*` = every occurrence (occurrence 0)
+                        Some(i) => (&a[..=i], if a[i + 3..].trim() == "*" { 0 } else { a[i + 3..].trim().parse::<i64>().unwrap_or(1) }),
                         None => (a, 1),
                     };
                     d.ats.push(At { anchor: unquote(a), occurrence: occ, before, up, text: String::new() });
@@ -1025,9 +1026,17 @@ fn process_fn(src_with_attrs: &str, d: &Dir, loc: &Located) -> FnOut {
             }
         }
         for a in &d.ats {
-            let mut pos = None;
-            if a.occurrence < 0 {
+            let mut positions: Vec<usize> = vec![];
+            if a.occurrence == 0 {
+                // every occurrence
+                let mut from = 0;
+                while let Some(p) = text[from..].find(a.anchor.as_str()) {
+                    positions.push(from + p);
+                    from = from + p + 1;
+                }
+            } else if a.occurrence < 0 {
                 // counted from the end: -1 = last occurrence
+                let mut pos = None;
                 let mut upto = text.len();
                 for _ in 0..(-a.occurrence) {
                     match text[..upto].rfind(a.anchor.as_str()) {
@@ -1041,7 +1050,9 @@ fn process_fn(src_with_attrs: &str, d: &Dir, loc: &Located) -> FnOut {
                         }
                     }
                 }
+                positions.extend(pos);
             } else {
+                let mut pos = None;
                 let mut from = 0;
                 for _ in 0..a.occurrence {
                     match text[from..].find(a.anchor.as_str()) {
@@ -1055,27 +1066,27 @@ fn process_fn(src_with_attrs: &str, d: &Dir, loc: &Located) -> FnOut {
                         }
                     }
                 }
+                positions.extend(pos);
             }
-            let pos = match pos {
-                Some(p) => p,
-                None => {
-                    // a lost *hint* anchor does not stop the run: the hint is dropped and recorded; the caller
-                    // treats a proof that then fails in this function as undecided, not as a violation
-                    LOST_HINTS.with(|l| l.borrow_mut().push(format!("{}: anchor {:?} #{}", d.item, a.anchor, a.occurrence)));
-                    continue;
+            if positions.is_empty() {
+                // a lost *hint* anchor does not stop the run: the hint is dropped and recorded; the caller
+                // treats a proof that then fails in this function as undecided, not as a violation
+                LOST_HINTS.with(|l| l.borrow_mut().push(format!("{}: anchor {:?} #{}", d.item, a.anchor, a.occurrence)));
+                continue;
+            }
+            for pos in positions {
+                let mut sf = StmtFinder { pos, all: vec![] };
+                sf.visit_impl_item_fn(&f);
+                sf.all.sort_by_key(|r| r.end - r.start);
+                if sf.all.len() <= a.up {
+                    die("anchor-lost", &format!("{}: no statement (level {}) at anchor {:?}", d.item, a.up, a.anchor));
                 }
-            };
-            let mut sf = StmtFinder { pos, all: vec![] };
-            sf.visit_impl_item_fn(&f);
-            sf.all.sort_by_key(|r| r.end - r.start);
-            if sf.all.len() <= a.up {
-                die("anchor-lost", &format!("{}: no statement (level {}) at anchor {:?}", d.item, a.up, a.anchor));
-            }
-            let r = sf.all[a.up].clone();
-            if a.before {
-                edits.push((r.start..r.start, format!("{}\n", a.text)));
-            } else {
-                edits.push((r.end..r.end, format!("\n{}", a.text)));
+                let r = sf.all[a.up].clone();
+                if a.before {
+                    edits.push((r.start..r.start, format!("{}\n", a.text)));
+                } else {
+                    edits.push((r.end..r.end, format!("\n{}", a.text)));
+                }
             }
         }
     }
